@@ -31,7 +31,7 @@ PROPS = {
     },
     "C14": {
         "timeouts_not_mine": True,
-        "lean_modules": ["Props.Cells", "Props.Clean", "Props.C01p"],
+        "lean_modules": ["Props.Cells", "Props.Clean", "Props.C01p", "Props.Gen14"],
         "groups": [{"name": "C14", "quick": 4000, "thorough": 100000}, {"name": "render", "quick": 1500, "thorough": 40000},
                    {"name": "presentP", "quick": 600, "thorough": 20000, "workers": 12}],
         "rule": "style expressions (nesting and concatenation of the eight style functions over texts with newlines, blanks, tabs, wide characters) optionally followed by 0..3 layout steps (wrap, dumbwrap, pad, indent, snip, quote, header, bullet, link, linkblock); a terminal state machine is run on the implementation's output: per-character attributes must equal the enclosing style functions, and no attribute may be active at a line break or at the end; plus the render group; "
@@ -73,6 +73,7 @@ PROPS = {
         "shrink_budget": 2,
     },
     "C08": {
+        "lean_modules": ["Props.Facts17"],
         "groups": [{"name": "C08", "quick": 64, "thorough": 3000, "workers": 16, "config": "[feeds]\nhome = [\"https://127.0.0.1:1/a\", \"https://127.0.0.1:1/b\"]\n"}],
         "race": True,
         "level": "proof",
@@ -120,7 +121,7 @@ PROPS = {
                    {"name": "C05x", "quick": 0, "thorough": 400, "workers": 1, "config": "[network]\ntimeout_seconds = 1\n"}],
         "replay_config": "[network]\ntimeout_seconds = 1\n",
         "level": "fault_enumeration",
-        "rule": "a document behind 0..2 redirect hops over the TLS simulator, one hop carrying a fault: response cut at a random byte or at a structural boundary (status line, CRLF, blank line, last byte) followed by EOF, TCP reset or silence; total silence after the handshake; 25 ms/byte trickle; TCP accept without TLS handshake; timeout 1 s; "
+        "rule": "a document behind 0..2 redirect hops over the TLS simulator, one hop carrying a fault: response cut at a random byte or at a structural boundary (status line, CRLF, blank line, last byte) followed by EOF, TCP reset or silence; cuts placed relative to the end of the Location value as served (one character short of it, where a decoy document lives; exactly at its end; after the CR); total silence after the handshake; 100 ms/byte trickle from the first byte; headers at once and the rest dripping every 250 ms (slowtail); TCP accept without TLS handshake; timeout 1 s; "
                 "compared: result class with the model on the bytes the client can have received, and wall-clock <= (connections+1)*2 s + 1.5 s; non-trivial = at least two connections; distinct by op content",
         "trusted": ["net.Conn honours SetDeadline; json.Decoder succeeds only on a complete top-level value (validated by the cut-point enumeration)",
                     "crypto/tls, the Go scheduler and wall-clock time (observed, not proved)"],
@@ -137,6 +138,9 @@ PROPS = {
         "assumptions": ["amount + startingPoint < 2^64 (Go uint)"],
     },
     "C11": {
+        # the Splicer model is the merge the property describes (take_is_trace, take_exactly_once):
+        # a delivery that differs from it is an item out of place
+        "correspondence_is_failure": {"splice": True},
         "groups": [{"name": "C11", "quick": 4000, "thorough": 150000},
                    # feeds over simulator-served actors and collections, through splicer.NewSplicer and the UI
                    {"name": "C07", "quick": 128, "thorough": 4000, "workers": 16}],
@@ -157,7 +161,7 @@ PROPS = {
                         "the width theorems are about canonical styled text (what servitor's own style layer produces); hostile strings are covered by the correspondence check only"],
     },
     "C17": {
-        "lean_modules": ["Props.Gen17"],
+        "lean_modules": ["Props.Gen17", "Props.Facts17"],
         "groups": [{"name": "C17", "quick": 8000, "thorough": 300000}],
         "rule": "JSON documents with null/bool/number/string/array/object under keys k, m, z (numbers from an edge pool around 0, +-1, 2^53, 2^63, 2^64, subnormals, huge exponents, random bit patterns and integers around powers of two; strings with control characters, timestamps, URLs, media types) x every accessor x present/absent keys; "
                 "non-trivial = the key is present in the document; distinct by op content",
